@@ -311,3 +311,30 @@ fn make_digits(a: &impl BigInteger, w: usize, num_bits: usize) -> impl Iterator<
         digit
     })
 }
+
+/// Verification hooks (compiled only with `--cfg arkworks_rs_algebra_verif`): public wrappers
+/// around the private MSM building blocks, so that an out-of-tree harness can exercise the
+/// plain-bucket method (unreachable through the public API for groups with cheap negation),
+/// the signed-digit method and the digit recoding directly.
+#[cfg(arkworks_rs_algebra_verif)]
+pub mod verif_hooks {
+    use super::*;
+
+    pub fn msm_bigint_plain<V: VariableBaseMSM>(
+        bases: &[V::MulBase],
+        bigints: &[<V::ScalarField as PrimeField>::BigInt],
+    ) -> V {
+        super::msm_bigint::<V>(bases, bigints)
+    }
+
+    pub fn msm_bigint_wnaf<V: VariableBaseMSM>(
+        bases: &[V::MulBase],
+        bigints: &[<V::ScalarField as PrimeField>::BigInt],
+    ) -> V {
+        super::msm_bigint_wnaf::<V>(bases, bigints)
+    }
+
+    pub fn make_digits(a: &impl BigInteger, w: usize, num_bits: usize) -> Vec<i64> {
+        super::make_digits(a, w, num_bits).collect()
+    }
+}
